@@ -98,10 +98,15 @@ func Finalize(writer io.WriterAt, header carv2.Header, idx *index.InsertionIndex
 	if err != nil {
 		return err
 	}
-	if _, err := index.WriteTo(fi, internalio.NewOffsetWriter(writer, int64(header.IndexOffset))); err != nil {
+	// The header goes out before the index, so that the end of the data payload is on disk before
+	// anything is written behind it. Should the process die while the index is being written, the
+	// file is a finalized CARv2 with an incomplete index, which resumption cuts off at the end of
+	// the payload; it can no longer be taken for an unfinalized payload whose trailing index
+	// bytes parse as sections. A header torn while being written is refused by resumption.
+	if _, err := header.WriteTo(internalio.NewOffsetWriter(writer, carv2.PragmaSize)); err != nil {
 		return err
 	}
-	if _, err := header.WriteTo(internalio.NewOffsetWriter(writer, carv2.PragmaSize)); err != nil {
+	if _, err := index.WriteTo(fi, internalio.NewOffsetWriter(writer, int64(header.IndexOffset))); err != nil {
 		return err
 	}
 	return nil
